@@ -115,6 +115,15 @@ class VariedLayout(mr.Layout):
             if new != text:
                 self.applied.add('blanks-around-equals')
             return new
+        if cls == 'int' and sp.get('intzeros') and text.lstrip('+-').isdigit():
+            # integers with leading zeros (01, -007)
+            k = self._next() % 4
+            if k == 0:
+                sign = text[0] if text[0] in '+-' else ''
+                new = sign + '0' * (1 + self._next() % 2) + text.lstrip('+-')
+                self.applied.add('int-leading-zeros')
+                return new
+            return text
         if cls == 'num':
             fam = sp.get('num')
             scope = sp.get('num_scope') or 'all'
